@@ -2,6 +2,7 @@ import FitModel.DecProg
 import Driver.ReadBuffer
 -- @family dfrag Drv.DFrag.hDfrag
 -- @family cifrag Drv.DFrag.hCifrag
+-- @family dfragx Drv.DFrag.hDfragX
 /-!
 `dfrag [chk=0|1] [size=<int>] b:<hex> [s:<lens>]` — the `for dec.Next() { dec.Decode() }` loop of a fresh decoder
 (`WithReadBufferSize(size)`, component expansion off, definition and message listeners) over a reader that
@@ -82,14 +83,54 @@ def sameOutcome : Outcome Out → Outcome Out → Bool
 /-- `v=` is evaluated only where C08 speaks: the schedule has no failure -/
 def vApplies (a : Args) : Bool := cleanB a.schedule
 
+def modelAnswer (a : Args) : String :=
+  let o := runOn a a.schedule a.bufSize
+  showOutcome o ++ (if vApplies a then (if sameOutcome o (reference a) then " v=same" else " v=diff") else " v=na")
+
+def fnvStr (d : UInt64) (s : String) : UInt64 :=
+  let d := s.foldl (fun d c => (d ^^^ c.toNat.toUInt64) * 0x100000001b3) d
+  (d ^^^ 10) * 0x100000001b3
+
+/-- `dfragx [chk=] [size=] b:<hex>`: EXHAUSTIVE sweep over the stream: every split point as a 2-chunk schedule × the three
+ways of reporting the end (schedule ends; EOF with the last chunk; a separate (0, EOF)), and a reader failing at every
+offset; digest of all `dfrag` answers, their number and the number of `v=diff` -/
+def sweepAnswer (a : Args) : String := Id.run do
+  let bs := a.bytes
+  let L := bs.length
+  let mut d : UInt64 := 0xcbf29ce484222325
+  let mut n := 0
+  let mut diffs := 0
+  for cut in [0:L+1] do
+    for how in [0:3] do
+      let c1 : Chunk := ⟨bs.take cut, none⟩
+      let c2 : Chunk := ⟨bs.drop cut, if how == 1 then some .eof else none⟩
+      let s : Sched := if how == 2 then [c1, c2, ⟨[], some .eof⟩] else [c1, c2]
+      let ans := modelAnswer { a with sched := some s }
+      d := fnvStr d ans
+      n := n + 1
+      if ans.endsWith "v=diff" then diffs := diffs + 1
+  for k in [0:L+1] do
+    let s : Sched := [⟨bs.take k, none⟩, ⟨[], some (.custom 7)⟩]
+    let ans := modelAnswer { a with sched := some s }
+    d := fnvStr d ans
+    n := n + 1
+  return s!"n={n} d={hexN 16 d.toNat} diff={diffs}"
+
+def hDfragX : Handler := fun r =>
+  match parseArgs r.args with
+  | none => if r.mode == .model then "bad-op" else if r.mode == .kf then "-" else "n/a"
+  | some a =>
+    match r.mode with
+    | .model => if a.sched.isSome then "bad-op" else sweepAnswer a
+    | .kf => "-"
+    | _ => "n/a"
+
 def hDfrag : Handler := fun r =>
   match parseArgs r.args with
   | none => if r.mode == .model then "bad-op" else if r.mode == .kf then "-" else "n/a"
   | some a =>
     match r.mode with
-    | .model =>
-      let o := runOn a a.schedule a.bufSize
-      showOutcome o ++ (if vApplies a then (if sameOutcome o (reference a) then " v=same" else " v=diff") else " v=na")
+    | .model => modelAnswer a
     | .spec => if vApplies a then showOutcome (reference a) ++ " v=same" else "n/a"
     | .kf =>
       if vApplies a then
